@@ -2,11 +2,11 @@ package sim
 
 import (
 	"fmt"
-	"sync/atomic"
 	"hash/fnv"
 	"reflect"
 	"sort"
 	"strings"
+	"sync/atomic"
 
 	hessian "github.com/vogo/gohessian"
 )
@@ -69,13 +69,13 @@ func register(e *Engine) { engines[e.Name] = e }
 // ---- the step hook: simulated clock for single-task engines -----------------------------------
 
 type stepClock struct {
-	steps    uint64
-	budget   uint64 // 0 = unlimited
-	exceeded bool
-	ring     [16]int32
-	rp       int
-	log      *Fingerprint
-	exSite   int32 // site at which the budget was exceeded
+	steps       uint64
+	budget      uint64 // 0 = unlimited
+	exceeded    bool
+	ring        [16]int32
+	rp          int
+	log         *Fingerprint
+	exSite      int32 // site at which the budget was exceeded
 	blocked     bool
 	blockedSite int32
 }
